@@ -10,6 +10,7 @@ from collections import defaultdict
 from ..graph.graph import Node
 from ..graph.maskable_graph import MaskableGraph
 from ..arch.registers import Register
+from ..utils.collections import OrderedSet
 
 
 class InterferenceGraphNode(Node):
@@ -18,7 +19,7 @@ class InterferenceGraphNode(Node):
     def __init__(self, graph, vreg):
         super().__init__(graph)
         self.temps = {vreg}
-        self.moves = set()
+        self.moves = OrderedSet()
         self.reg = vreg if vreg.is_colored else None
         self.reg_class = type(vreg)
 
@@ -123,7 +124,7 @@ class InterferenceGraph(MaskableGraph):
         """Combine n and m into n and return n"""
         # Copy associated moves and temporaries into n:
         n.temps |= m.temps
-        n.moves.update(m.moves)
+        n.moves |= m.moves
 
         # Update local temp map:
         for tmp in m.temps:
